@@ -104,6 +104,23 @@ def records(ctx):
             add(op, dict(inp, s=before), o1, site)
             add(op, dict(inp, s=before), o2, site + '[second call on the same object]')
             add('unchanged', {'law': 'ObjectUnchangedBy:' + op}, {'s': before, 't': after}, site)
+        # the population lists handed over as numpy integer arrays (and tuples), the SAME argument object used for two calls:
+        # both calls judged against the values the caller wrote, and the caller's array left as it was
+        a_over, a_keep, a_perm, a_pair = np.array(over), np.array(keep), np.array(perm), np.array([a, b])
+        for op, inp, arr, call, site in (
+                ('marginalize', {'over': [x + 1 for x in over]}, a_over, lambda: fs.marginalize(a_over), 'Spectrum.marginalize'),
+                ('filter', {'keep': keep}, a_keep, lambda: fs.filter_pops(a_keep), 'Spectrum.filter_pops'),
+                ('reorder', {'perm': perm}, a_perm, lambda: fs.reorder_pops(a_perm), 'Spectrum.reorder_pops'),
+                ('combine_two', {'a': a, 'b': b}, a_pair, lambda: fs.combine_two_pops(a_pair), 'Spectrum.combine_two_pops')):
+            before = enc(fs)
+            arr0 = arr.copy()
+            o1, o2 = observe(call), observe(call)
+            add(op, dict(inp, s=before), o1, site + '[ndarray argument]')
+            add(op, dict(inp, s=before), o2, site + '[ndarray argument, second call with the same array]')
+            add('argkept', {'law': 'ArgumentUnchangedBy:' + op, 'arg': [int(x) for x in arr0]}, {'arg': [int(x) for x in arr]}, site + '[ndarray argument]')
+        if P >= 4:      # merge sets of four and more populations, every position of the set
+            pops = sorted(r5.sample(range(1, P + 1), r5.randint(4, P)))
+            add('combine', {'s': enc(fs), 'pops': pops}, observe(lambda: fs.combine_pops(list(pops))), 'Spectrum.combine_pops')
     # pooled sample sizes beyond 1030 chromosomes (binomial coefficients beyond the range of a double)
     for sh in ([5, 1061],) if ctx.quick else ([5, 1061], [3, 1201], [4, 3, 1100]):
         fs = rand_spectrum(rng, sh, folded=False, labels=rand_labels(rng, len(sh)), mask_mode='none', integer=True)
@@ -115,6 +132,8 @@ def nontrivial(r):
     i = r['in']
     if r['op'] == 'unchanged':
         return ('unchanged', i['law'], tuple(r['out'].get('s', {}).get('sh', [])))
+    if r['op'] == 'argkept':
+        return ('argkept', i['law'], len(i['arg']))
     s = i['s']
     return (r['op'], i.get('law'), tuple(s['sh']), s['f'], bool(s['ids']), tuple(i.get('over', ())), tuple(i.get('perm', ())),
             tuple(i.get('keep', ())), i.get('a'), i.get('b'), tuple(i.get('pops', ())))
